@@ -16,6 +16,7 @@ from .gamma import Gamma
 NULL = {"null": True}
 CLASSES = {"H": (xgi.Hypergraph, hg.proj), "DH": (xgi.DiHypergraph, dhg.proj), "SC": (xgi.SimplicialComplex, sc.proj)}
 FAMS = [("ints", "int"), ("str", "int"), ("shift", "intfloat")]
+FAMS7 = FAMS + [("obj", "int"), ("bigint", "int")]  # C07 only: identity-hashed labels, fresh int objects
 
 
 def seed_network(cls, g, nodeless=False):
@@ -173,7 +174,7 @@ def _worker(args):
     out = []
     for k, acts in enumerate(chunk):
         for ci, cls in enumerate(("H", "DH", "SC")):
-            out += replay_behaviour(f"b{base + k}", acts, cls, FAMS[(base + k + ci) % len(FAMS)], nslots=nslots)
+            out += replay_behaviour(f"b{base + k}", acts, cls, FAMS7[(base + k + ci) % len(FAMS7)], nslots=nslots)
     return out
 
 
